@@ -140,6 +140,38 @@ Theorem C16_grid_position_injective : forall dims i j, Forall (fun s => 0 < s)%n
 Proof. exact grid_position_injective. Qed.
 Print Assumptions C16_grid_position_injective.
 
+(* GridNeighbors for EVERY dimension D: u is yielded for the cell v iff u is the index of v's position
+   moved by exactly one along exactly one axis, staying inside the grid ([axis_step]: the coordinate c
+   on axis a becomes c - 1 (when 0 < c) or c + 1 (when below the side)) *)
+Theorem C16_grid_neighbors_spec_generic : forall dims v u,
+  Forall (fun s => 0 < s)%nat dims -> (v < grid_len dims)%nat ->
+  (In u (grid_neighbors dims v)
+   <-> exists a c',
+         (exists c s, nth_opt (position_of dims v) a = Some c /\ nth_opt dims a = Some s
+                      /\ ((0 < c /\ c' = c - 1 /\ c' < s) \/ (c' = c + 1 /\ c' < s)))%nat
+         /\ u = index_of dims (set_nth (position_of dims v) a c')).
+Proof. exact grid_neighbors_spec_generic. Qed.
+Print Assumptions C16_grid_neighbors_spec_generic.
+
+(* every neighbour is a cell whose position is v's with one coordinate changed by one; conversely every
+   such cell is yielded; no cell is its own neighbour *)
+Theorem C16_grid_neighbors_adjacent_generic : forall dims v,
+  Forall (fun s => 0 < s)%nat dims -> (v < grid_len dims)%nat ->
+  (forall u, In u (grid_neighbors dims v) ->
+     (u < grid_len dims)%nat
+     /\ exists a c', axis_step dims (position_of dims v) a c'
+                     /\ position_of dims u = set_nth (position_of dims v) a c')
+  /\ (forall u a c', (u < grid_len dims)%nat -> axis_step dims (position_of dims v) a c' ->
+       position_of dims u = set_nth (position_of dims v) a c' -> In u (grid_neighbors dims v))
+  /\ ~ In v (grid_neighbors dims v).
+Proof.
+  exact (fun dims v H Hv =>
+    conj (fun u => grid_neighbors_are_adjacent_cells dims v u H Hv)
+      (conj (fun u a c' Hu => grid_adjacent_cells_are_neighbors dims v u a c' H Hv Hu)
+            (grid_neighbors_irreflexive dims v H Hv))).
+Qed.
+Print Assumptions C16_grid_neighbors_adjacent_generic.
+
 (* u is yielded by neighbors(v) iff u is a cell whose position differs from v's by exactly
    one on exactly one axis ([adjacent_pos]) *)
 Theorem C16_grid_neighbors_spec_2d : forall w h v u,
@@ -325,3 +357,9 @@ Example C16_nonvacuous_grid_generic :
   Forall (fun s => 0 < s)%nat [2; 3; 4; 5]%nat /\ grid_len [2; 3; 4; 5]%nat = 120%nat
   /\ position_of [2; 3; 4; 5]%nat 77 = [1; 2; 0; 3]%nat /\ index_of [2; 3; 4; 5]%nat [1; 2; 0; 3]%nat = 77%nat.
 Proof. repeat split; try reflexivity. repeat constructor. Qed.
+
+Example C16_nonvacuous_grid_neighbors_generic :
+  grid_neighbors [2; 3; 4; 5]%nat 77 = [76; 75; 83; 53; 101]%nat
+  /\ map (position_of [2; 3; 4; 5]%nat) [76; 75; 83; 53; 101]%nat
+     = [[0; 2; 0; 3]; [1; 1; 0; 3]; [1; 2; 1; 3]; [1; 2; 0; 2]; [1; 2; 0; 4]]%nat.
+Proof. vm_compute. split; reflexivity. Qed.
